@@ -354,3 +354,13 @@ def blacklist_bed(rng, bt, ids):
         lines.append(lines[0])
     order = rng.permutation(len(lines))
     return [lines[int(i)] for i in order]
+
+
+def write_blacklist_bed(rng, path, lines):
+    """Write the BED lines, sometimes under a first line as BED files in the wild carry it:
+    a '#'-commented column header or a plain column header (both are meant to be skipped by the reader)."""
+    head = ["", "", "#chrom\tstart\tend\n", "chrom\tstart\tend\n"][int(rng.integers(4))]
+    with open(path, "w") as fh:
+        fh.write(head)
+        fh.writelines(f"{a}\t{b}\t{e}\n" for a, b, e in lines)
+    return {"": "none", "#chrom\tstart\tend\n": "hash-comment-header", "chrom\tstart\tend\n": "plain-header"}[head]
